@@ -76,7 +76,7 @@ def expand(rng, m, ops):
         return None
 
 
-def spell_operand(rng, o, fancy):
+def spell_operand(rng, o, fancy, nochar=False):
     """-> text of the operand and its canonical value"""
     mm = re.match(r"^(-?\w*)\((\w+)\)$", o.replace(" ", ""))
     if mm and mm.group(2) in REGNUM:
@@ -90,7 +90,7 @@ def spell_operand(rng, o, fancy):
         return spell_reg(rng, o, fancy), [("R", REGNUM[o])]
     try:
         v = int(o, 0)
-        return spell_imm(rng, v, fancy), [("I", v)]
+        return spell_imm(rng, v, fancy, nochar), [("I", v)]     # (a CSR number is not an immediate: no character notation)
     except ValueError:
         return o, [("L", o)]
 
@@ -107,7 +107,7 @@ def spell_reg(rng, r, fancy):
     return ABI[n]
 
 
-def spell_imm(rng, v, fancy):
+def spell_imm(rng, v, fancy, nochar=False):
     if not fancy:
         return str(v)
     k = rng.random()
@@ -117,7 +117,7 @@ def spell_imm(rng, v, fancy):
         return ("-" if v < 0 else "") + rng.choice(["0x%x", "0X%X", "0x%X"]) % abs(v)
     if k < 0.8:
         return ("-" if v < 0 else "") + "0b" + bin(abs(v))[2:]
-    if 32 < v < 127 and chr(v) not in "'\\\"#":
+    if 32 < v < 127 and chr(v) not in "'\\\"#" and not nochar:
         return "'%s'" % chr(v)
     return str(v)
 
@@ -180,7 +180,7 @@ def write(rng, items, fancy):
         for k, o in enumerate(ops):
             sep = (rng.choice([" ", "\t", "  "]) if k == 0 else rng.choice([", ", ",", " ", " , ", ",\t", "  "])) if fancy else (" " if k == 0 else ", ")
             txt += sep
-            s, canon = spell_operand(rng, o, fancy)
+            s, canon = spell_operand(rng, o, fancy, m.lower().startswith("csr"))
             # token positions inside a memory operand: offset first, then the register
             pos = len(txt)
             if len(canon) == 2:
